@@ -7,6 +7,7 @@ every key list and every component list; nothing is bounded.  Helper lemmas: `Ja
 -/
 import Jap.Lemmas.Graph
 import Jap.Lemmas.GraphFlow
+import Jap.Lemmas.GraphNested
 import Jap.Gen.LinkBookkeeping
 import Jap.Gen.LinkFlowSrc
 
@@ -83,10 +84,18 @@ Full-strength statement (DESIGN `C16_instantiate`), which the code and hence the
         (h : componentOrder links setOrder dests = .ok comps) : SourcesFirst links comps
 
 where `SourcesFirst` says: every source component of a link precedes every component that consumes the
-link's target (`feeds`).  It fails when a link targets a component nested inside a component that is itself a
+link's target (`feeds`).  It fails when a link targets a component nested inside a component that is ONLY a
 *source* of another link: `reorder` lets the key of the enclosing component pull the nested one forward
-(known finding `C16-nested-target-in-source`).  Witness below; then the theorem under the explicit
-decidable hypothesis `FlatKeys` (no graph key is a proper dotted prefix of a component). -/
+(known finding `C16-nested-target-in-source`).  Witness below.  What is proved:
+
+* `C16_instantiate_nested` — the statement itself (`SourcesFirst`, every consumer) for link sets of any size with
+  sources/targets nested at any depth, under the decidable hypothesis `NestedKeysOK` (Core/Graph): a key matching a
+  consumer is the link's target node or a containing TARGET node.  The excluded class is exactly the finding above.
+* `C16_reject_cycle_nested` — rejection ⇔ a cycle in the dependencies including containment, under
+  `ContainmentCovered`; excluded class = finding `C16-containment-cycle-accepted` (witness `cycLinks`).
+* `SourcesTopLevel` — the class of finding `C16-nested-source-after-enclosing-group` (witness `nsrcLinks`: the order
+  statement holds there, the source's cfg entry does not survive).
+* `C16_instantiate_partial` — the older special case for flat keys (`FlatKeys`), kept. -/
 
 /-- every source component of a link precedes every component that consumes the link's target -/
 def SourcesFirst (links : List Link) (comps : List String) : Prop :=
@@ -151,6 +160,58 @@ theorem C16_instantiate_partial (links : List Link) (setOrder dests comps : List
     rw [h] at this
     exact this
 
+/-- C16_instantiate_nested: for link sets of any size and targets/sources nested at any depth — outside the class
+    `¬ NestedKeysOK` — EVERY component that consumes a link's target (the component holding it and every enclosing
+    one) is walked after EVERY source component of the link, in every declaration order. -/
+theorem C16_instantiate_nested (links : List Link) (setOrder dests comps : List String)
+    (h : componentOrder links setOrder dests = .ok comps) (hk : NestedKeysOK links setOrder dests) :
+    ∀ l ∈ links, ∀ s ∈ l.sources, s ∈ dests → ∀ c ∈ dests, feeds c l.target = true →
+      comps.idxOf s < comps.idxOf c := by
+  intro l hl s hs hsd c hcd hf
+  unfold componentOrder at h
+  cases ho : instantiationOrder links setOrder with
+  | error e => rw [ho] at h; simp at h
+  | ok order =>
+    rw [ho] at h
+    simp only [Except.ok.injEq] at h
+    have hne : links.isEmpty = false := by
+      cases links with
+      | nil => simp at hl
+      | cons _ _ => rfl
+    simp only [instantiationOrder, hne, Bool.false_eq_true, if_false] at ho
+    obtain ⟨hperm, hfwd⟩ := topo_ok_names _ order ho
+    have hedge : (s, targetNode l.target) ∈ instantiationEdges links setOrder :=
+      List.mem_append_left _ (mem_linkEdges s links l hl hs)
+    have hso : s ∈ order :=
+      hperm.mem_iff.mpr ((mem_nodes_build _ s).mpr ⟨_, hedge, Or.inl rfl⟩)
+    have hst := hfwd _ hedge
+    rw [← h]
+    apply reorder_sources_first (instantiationEdges links setOrder) order (sortDesc depth dests) s c
+      ((mem_sortDesc depth s dests).mpr hsd) ((mem_sortDesc depth c dests).mpr hcd) hso
+    intro k hko hm
+    rcases hk l hl c hcd hf k (hperm.mem_iff.mp hko) hm with rfl | ⟨h1, h2, h3, h4⟩
+    · exact hst
+    · have he : (targetNode l.target, k) ∈ instantiationEdges links setOrder :=
+        List.mem_append_right _ (mem_prefixEdges setOrder _ k h2 h1 h3 h4)
+      have := hfwd _ he
+      simp only at this hst
+      omega
+
+/-- the finding-1 witness is outside the hypothesis: the key `root` is only a source and contains the target `root.child…` -/
+theorem C16_nested_excludes_witness : ¬ NestedKeysOK badLinks ["root.child", "b"] ["a", "b", "root", "root.child"] := by
+  decide
+
+-- non-vacuity: targets on all three nesting levels of one group that is ALSO a source (it is a target too, so the
+-- containment edges exist), four links, keys that are far from flat — inside the hypothesis, and the order is right
+def nestedLinks : List Link :=
+  [⟨["a"], "root.child.init_args.grandchild.init_args.g"⟩, ⟨["ab"], "root.child.init_args.p"⟩, ⟨["c", "a"], "root.r"⟩,
+   ⟨["root"], "x.init_args.p0"⟩]
+def nestedDests : List String := ["x", "root.r", "root.r2", "a", "root.child", "ab", "c", "root"]
+example : NestedKeysOK nestedLinks ["root.child.init_args.grandchild", "root.child", "root", "x"] nestedDests := by decide
+example : ¬ FlatKeys nestedLinks ["root.child.init_args.grandchild", "root.child", "root", "x"] nestedDests := by decide
+example : componentOrder nestedLinks ["root.child.init_args.grandchild", "root.child", "root", "x"] nestedDests
+    = .ok ["c", "ab", "a", "root.child", "root.r", "root.r2", "root", "x"] := rfl
+
 /-- C16_reject_cycle: a link set whose graph has a cycle makes `instantiation_order` (called by the
     constructor of the link that closes it) fail, naming an edge on a real cycle; and only then. -/
 theorem C16_reject_cycle (links : List Link) (setOrder : List String) (hne : links ≠ []) :
@@ -167,6 +228,52 @@ theorem C16_reject_cycle (links : List Link) (setOrder : List String) (hne : lin
     cases h : topo (instantiationEdges links setOrder) with
     | ok o => exact absurd ⟨o, h⟩ hno
     | error e => exact ⟨e, rfl⟩
+
+/-! #### the other two nested classes -/
+
+/-- C16_reject_cycle_nested: outside the class `¬ ContainmentCovered`, `instantiation_order` rejects a link set exactly
+    when the construction dependencies INCLUDING containment (an object is built after everything nested in it) have a
+    cycle — for nested keys of any depth. -/
+theorem C16_reject_cycle_nested (links : List Link) (setOrder : List String) (hne : links ≠ [])
+    (hc : ContainmentCovered links setOrder) :
+    (∃ e, instantiationOrder links setOrder = .error e) ↔ ¬ Acyclic (fullEdges links setOrder) := by
+  rw [C16_reject_cycle links setOrder hne]
+  have h1 : ∀ e ∈ instantiationEdges links setOrder, e ∈ fullEdges links setOrder :=
+    fun e he => List.mem_append_left _ he
+  have h2 : ∀ e ∈ fullEdges links setOrder, e ∈ instantiationEdges links setOrder := by
+    intro e he
+    rcases List.mem_append.mp he with he | he
+    · exact he
+    · exact hc e he
+  constructor
+  · intro hn ha; exact hn (Acyclic.of_subset h1 ha)
+  · intro hn ha; exact hn (Acyclic.of_subset h2 ha)
+
+/-- finding C16-containment-cycle-accepted inside the model: `root --> a.p0`, `a --> root.child.init_args.p` is accepted
+    although Root needs Child, Child needs A, A needs Root; it is outside `ContainmentCovered` -/
+def cycLinks : List Link := [⟨["root"], "a.p0"⟩, ⟨["a"], "root.child.init_args.p"⟩]
+theorem C16_containment_cycle_witness :
+    instantiationOrder cycLinks ["a", "root.child"] = .ok ["root", "a", "root.child"] ∧
+    ¬ Acyclic (fullEdges cycLinks ["a", "root.child"]) ∧ ¬ ContainmentCovered cycLinks ["a", "root.child"] := by
+  refine ⟨rfl, ?_, by decide⟩
+  intro h
+  apply h
+  refine ⟨"root", "a", by decide, ?_⟩
+  exact .tail (.tail (.refl "a") (show ("a", "root.child") ∈ _ by decide)) (show ("root.child", "root") ∈ _ by decide)
+
+/-- finding C16-nested-source-after-enclosing-group inside the model: `m.child --> c.p0`, `m --> c.p1` is inside
+    `NestedKeysOK` — both sources ARE walked before the consumer `c` — but the group `m` enclosing the source `m.child` is
+    walked before `c` too (its construction replaces `cfg.m`, so `cfg["m.child"]` is gone): outside `SourcesTopLevel` -/
+def nsrcLinks : List Link := [⟨["m.child"], "c.p0"⟩, ⟨["m"], "c.p1"⟩]
+theorem C16_nested_source_witness :
+    componentOrder nsrcLinks ["c"] ["c", "m", "m.child"] = .ok ["m.child", "m", "c"] ∧
+    NestedKeysOK nsrcLinks ["c"] ["c", "m", "m.child"] ∧ ¬ SourcesTopLevel nsrcLinks ["c", "m", "m.child"] := by
+  refine ⟨rfl, by decide, by decide⟩
+
+-- the three-level example is inside all three hypotheses
+example : ContainmentCovered nestedLinks ["root.child.init_args.grandchild", "root.child", "root", "x"] := by decide
+example : SourcesTopLevel nestedLinks nestedDests := by decide
+example : ¬ ContainmentCovered badLinks ["root.child", "b"] := by decide
 
 /-! ### value flow: constructor log, received arguments, applied-links bookkeeping
 
@@ -335,6 +442,90 @@ theorem C16_fed_value_acyclic (setOrder dests seq : List String) (isClass : Stri
     exact h2 d (List.mem_map.mpr ⟨d, hd, by rw [hc]⟩)
   · intro d hd hc
     exact (C16_each_once F links order _).2 (by rw [hmap]; exact hseqnd) d (List.mem_map.mpr ⟨d, hd, by rw [hc]⟩)
+
+/-! #### value flow over nested keys; chains -/
+
+/-- C16_sources_ready_nested: readiness along the walked sequence from the nested-keys order theorem — no ownership
+    assumption on the keys; sources are class components of the parser. -/
+theorem C16_sources_ready_nested (setOrder dests seq : List String) (isClass : String → Bool)
+    (h : componentOrder (links.map FLink.toLink) setOrder dests = .ok seq)
+    (hnd : dests.Nodup) (hk : NestedKeysOK (links.map FLink.toLink) setOrder dests)
+    (hsrc : ∀ l ∈ links, ∀ s ∈ l.sources, s.1 ∈ dests ∧ isClass s.1 = true) :
+    SourcesReady links [] (seq.map fun d => (d, isClass d)) := by
+  have hperm := componentOrder_perm _ setOrder dests seq h
+  have hmap : (seq.map fun d => (d, isClass d)).map (·.1) = seq := by simp [List.map_map, Function.comp_def]
+  apply sourcesReady_of_positions
+  · rw [hmap]; exact hperm.nodup_iff.mpr hnd
+  · intro l hl c hc hf s hs
+    obtain ⟨cd, hcd, rfl⟩ := List.mem_map.mp hc
+    obtain ⟨hsd, hsc⟩ := hsrc l hl s hs
+    refine ⟨List.mem_map.mpr ⟨s.1, hperm.mem_iff.mpr hsd, by rw [hsc]⟩, ?_⟩
+    rw [hmap]
+    exact C16_instantiate_nested _ setOrder dests seq h hk (FLink.toLink l) (List.mem_map.mpr ⟨l, hl, rfl⟩)
+      s.1 (List.mem_map.mpr ⟨s, hs, rfl⟩) hsd cd (hperm.mem_iff.mp hcd) hf
+
+/-- C16_fed_value_nested: the composition over nested keys — for an accepted link set inside `NestedKeysOK`, of any size
+    and nesting depth: every argument received through a link position is `F(constructed sources)`, every class
+    component's constructor call carries every position inside it of every link feeding it, each class component is
+    constructed exactly once, and the constructor call of every source PRECEDES the constructor call of every class
+    component that consumes the link. -/
+theorem C16_fed_value_nested (setOrder dests seq : List String) (isClass : String → Bool)
+    (h : componentOrder (links.map FLink.toLink) setOrder dests = .ok seq)
+    (hnd : dests.Nodup) (hk : NestedKeysOK (links.map FLink.toLink) setOrder dests)
+    (hsrc : ∀ l ∈ links, ∀ s ∈ l.sources, s.1 ∈ dests ∧ isClass s.1 = true) :
+    let r := instantiateClasses F links order (seq.map fun d => (d, isClass d)) Cfg.parsed
+    (∀ e ∈ r.log, ∀ kv ∈ e.2, ∃ l ∈ links, kv.1 ∈ targetSlots l ∧ kv.2 = goodValue F l) ∧
+    (∀ d ∈ seq, isClass d = true → ∃ e ∈ r.log, e.1 = d ∧
+      ∀ l ∈ links, feeds d l.target = true → ∀ k ∈ targetSlots l, feeds d k = true → ∃ v, (k, v) ∈ e.2) ∧
+    (∀ d ∈ seq, isClass d = true → (r.log.map (·.1)).count d = 1) ∧
+    (∀ l ∈ links, ∀ s ∈ l.sources, ∀ d ∈ seq, isClass d = true → feeds d l.target = true →
+      (r.log.map (·.1)).idxOf s.1 < (r.log.map (·.1)).idxOf d) := by
+  have hready := C16_sources_ready_nested links setOrder dests seq isClass h hnd hk hsrc
+  obtain ⟨h1, h2⟩ := C16_fed_value F links order _ hready
+  have hperm := componentOrder_perm _ setOrder dests seq h
+  have hmap : (seq.map fun d => (d, isClass d)).map (·.1) = seq := by simp [List.map_map, Function.comp_def]
+  have hseqnd : seq.Nodup := hperm.nodup_iff.mpr hnd
+  have hlog := (C16_each_once F links order (seq.map fun d => (d, isClass d))).1
+  refine ⟨h1, ?_, ?_, ?_⟩
+  · intro d hd hc
+    exact h2 d (List.mem_map.mpr ⟨d, hd, by rw [hc]⟩)
+  · intro d hd hc
+    exact (C16_each_once F links order _).2 (by rw [hmap]; exact hseqnd) d (List.mem_map.mpr ⟨d, hd, by rw [hc]⟩)
+  · intro l hl s hs d hd hc hf
+    obtain ⟨hsd, hsc⟩ := hsrc l hl s hs
+    have hpos := C16_instantiate_nested _ setOrder dests seq h hk (FLink.toLink l) (List.mem_map.mpr ⟨l, hl, rfl⟩)
+      s.1 (List.mem_map.mpr ⟨s, hs, rfl⟩) hsd d (hperm.mem_iff.mp hd) hf
+    show ((instantiateClasses F links order (seq.map fun d => (d, isClass d)) Cfg.parsed).log.map (·.1)).idxOf s.1 < _
+    rw [hlog, filter_flag_map]
+    exact idxOf_filter_lt isClass seq s.1 d hseqnd (hperm.mem_iff.mpr hsd) hd hsc hc hpos
+
+/-- a chain of components: each one is a source of a link that feeds the next -/
+def LinkedTo (links : List FLink) (a b : String) : Prop :=
+  ∃ l ∈ links, (∃ s ∈ l.sources, s.1 = a) ∧ feeds b l.target = true
+
+/-- C16_chain_delivery: links whose source is itself fed by another instantiate link, chains `d₀ → d₁ → … → dₙ` of ANY
+    length: along the chain the constructor calls happen strictly in chain order (each dᵢ is built — with the values its
+    own links deliver, by `C16_fed_value_nested` — before it is read as the source for dᵢ₊₁). -/
+theorem C16_chain_delivery (setOrder dests seq : List String) (isClass : String → Bool)
+    (h : componentOrder (links.map FLink.toLink) setOrder dests = .ok seq)
+    (hnd : dests.Nodup) (hk : NestedKeysOK (links.map FLink.toLink) setOrder dests)
+    (hsrc : ∀ l ∈ links, ∀ s ∈ l.sources, s.1 ∈ dests ∧ isClass s.1 = true)
+    (chain : List String) (hc : ChainOf (LinkedTo links) chain) (hcl : ∀ d ∈ chain, d ∈ seq ∧ isClass d = true) :
+    ChainOf (· < ·) (chain.map fun d =>
+      ((instantiateClasses F links order (seq.map fun d => (d, isClass d)) Cfg.parsed).log.map (·.1)).idxOf d) := by
+  obtain ⟨_, _, _, hord⟩ := C16_fed_value_nested F links order setOrder dests seq isClass h hnd hk hsrc
+  induction chain with
+  | nil => trivial
+  | cons a r ih =>
+    cases r with
+    | nil => trivial
+    | cons b r' =>
+      obtain ⟨⟨l, hl, ⟨s, hs, hsa⟩, hf⟩, hrest⟩ := hc
+      refine ⟨?_, ih hrest (fun d hd => hcl d (List.mem_cons_of_mem _ hd))⟩
+      have hb := hcl b (by simp)
+      have := hord l hl s hs b hb.1 hb.2 hf
+      rw [hsa] at this
+      exact this
 
 /-- C16_bookkeeping_fresh: for the bookkeeping as extracted from the source (`Jap.Gen.linkStateWrites`: no write
     outside cfg; the set is popped from and stored into cfg), every call of a session — whatever calls came before,
@@ -615,6 +806,27 @@ def exSubListLink : FLink :=
   { sources := [("a", some "at")], target := "t.init_args.elems.init_args.p0", fn := none, tdest := "t", tsub := true,
     parent := .single ["class_path", "init_args", "init_args.elems", "init_args.r", "init_args.r2"] }
 example : targetSlots exSubListLink = [] := by decide
+
+-- a CHAIN of five components, each fed from the previous one (object / attribute through compute_fn / object / two
+-- sources), declared in reverse: inside the hypotheses of C16_fed_value_nested / C16_chain_delivery; the model's log
+def chainLinks : List FLink :=
+  [FLink.plain [("d", none), ("a", some "bt")] "e.p0" (some "f2"), FLink.plain [("c", none)] "d.p1" none,
+   { sources := [("b", some "at")], target := "c.init_args.p0", fn := some "f1", tdest := "c", tsub := true,
+     parent := .single ["class_path", "init_args", "init_args.p0"] },
+   FLink.plain [("a", none)] "b.p0" none]
+def chainDests : List String := ["e", "d", "c", "b", "a"]
+example : componentOrder (chainLinks.map FLink.toLink) ["e", "d", "c", "b"] chainDests = .ok ["a", "b", "c", "d", "e"] := rfl
+example : NestedKeysOK (chainLinks.map FLink.toLink) ["e", "d", "c", "b"] chainDests := by decide
+example : chainDests.Nodup ∧ ∀ l ∈ chainLinks, ∀ s ∈ l.sources, s.1 ∈ chainDests ∧ (fun _ => true) s.1 = true := by decide
+example : ChainOf (LinkedTo chainLinks) ["a", "b", "c", "d", "e"] :=
+  ⟨⟨_, List.mem_cons_of_mem _ (List.mem_cons_of_mem _ (List.mem_cons_of_mem _ List.mem_cons_self)), ⟨("a", none), by decide, rfl⟩, by decide⟩,
+   ⟨_, List.mem_cons_of_mem _ (List.mem_cons_of_mem _ List.mem_cons_self), ⟨("b", some "at"), by decide, rfl⟩, by decide⟩,
+   ⟨_, List.mem_cons_of_mem _ List.mem_cons_self, ⟨("c", none), by decide, rfl⟩, by decide⟩,
+   ⟨_, List.mem_cons_self, ⟨("d", none), by decide, rfl⟩, by decide⟩, trivial⟩
+example : (instantiateClasses Val.app chainLinks ["a", "b", "c", "d", "e"]
+      [("a", true), ("b", true), ("c", true), ("d", true), ("e", true)] Cfg.parsed).log
+    = [("a", []), ("b", [("b.p0", .obj "a")]), ("c", [("c.init_args.p0", .app "f1" [.attr (.obj "b") "at"])]),
+       ("d", [("d.p1", .obj "c")]), ("e", [("e.p0", .app "f2" [.obj "d", .attr (.obj "a") "bt"])])] := rfl
 
 -- `OwnedKeys` is satisfiable by a real component list (parameter components `a.p0`, … owned by their class)
 def exLinks : List FLink := [(FLink.plain [("c", none)] "a.p0" none), (FLink.plain [("a", some "at")] "b.init_args.p0" none),
